@@ -4,7 +4,8 @@ SyltInit (TLA+) defines what a program means without reference to text order: a 
 dynamic needs of its initialiser are met (GlobalInit), start() runs last. MC_Init explores EVERY admissible order for
 every program of two families - dependency SHAPES (<= 4 globals, 15 initialiser kinds, every target choice) and
 syntactic POSITIONS (a function / initialiser whose only mention of a later global sits at one child position of one
-construct: 47 positions x 4 kinds of user) - under the invariants no uninitialised access, confluence, blocked <=>
+construct: 53 positions x 4 kinds of user), plus SELF-REFERENCE, TYPE ORDER (SyltTypeOrder) and DEAD CODE (SyltDeadCode: the
+only mention sits in code that never runs - after ret / <!>, in never-taken branches, arms, loops and closures) - under the invariants no uninitialised access, confluence, blocked <=>
 cyclic, and prints each program with its class (confluent / nonconfluent / cyclic) and
 expected result. The harness renders every textual permutation of the top-level statements (all NS! when <= 120,
 else 120 seeded ones) and two-file splits (other.sy with `from .. use` / `use ..`), compiles each with the real
@@ -56,7 +57,7 @@ ASSIGN_POSITIONS = ("asgtarget", "opasgtarget", "fldtarget", "fldoptarget", "dee
 def assign_pairs(rec):
     """[(ids of the globals whose initialisation or body leads to an assignment of global t, t)] - from the case."""
     pairs = []
-    if rec["fam"] in ("type", "self"):
+    if rec["fam"] in ("type", "self", "dead", "deadself"):      # (an assignment in code that never runs assigns nothing)
         return pairs
     if rec["fam"] in ("pos", "unspec"):
         if rec["id"]["pos"] in ASSIGN_POSITIONS:
@@ -100,6 +101,10 @@ def describe(rec):
         return "self-reference,pos=%s,user=%s" % (rec["id"]["pos"], rec["id"]["user"])
     if rec["fam"] == "type":
         return "type=%s,use=%s" % (rec["id"]["shape"], rec["id"]["use"])
+    if rec["fam"] == "dead":
+        return "dead=%s,pos=%s,user=%s" % (rec["id"]["ctx"], rec["id"]["pos"], rec["id"]["user"])
+    if rec["fam"] == "deadself":
+        return "dead-self-reference=%s,pos=%s,user=%s" % (rec["id"]["ctx"], rec["id"]["pos"], rec["id"]["user"])
     return "kinds=" + "+".join(sorted(set(c["kind"] for c in rec["id"])))
 
 
@@ -160,10 +165,10 @@ def run(ctx):
     verdicts = vlib.Verdicts(PID)
     vlib.build_harness(["c11"])
     if tier == "quick":
-        uni = {"MINN": 1, "MAXN": 4, "MOD": 12, "SEED": ctx.seed, "POS": 1, "TYPES": 1}
+        uni = {"MINN": 1, "MAXN": 4, "MOD": 12, "SEED": ctx.seed, "POS": 1, "TYPES": 1, "DEAD": 1, "DEADMOD": 8, "DEADSELFMOD": 12}
         params = {"MAXPERM": 120, "TWOG": 2, "TWOP": 6}
     else:
-        uni = {"MINN": 1, "MAXN": 4, "MOD": 1, "SEED": ctx.seed, "POS": 1, "TYPES": 1}
+        uni = {"MINN": 1, "MAXN": 4, "MOD": 1, "SEED": ctx.seed, "POS": 1, "TYPES": 1, "DEAD": 1, "DEADMOD": 1, "DEADSELFMOD": 1}
         params = {"MAXPERM": 120, "TWOG": 4, "TWOP": 12}
 
     if ctx.replay:
@@ -193,15 +198,21 @@ def run(ctx):
     for c in cases:
         by_class[c["class"]] = by_class.get(c["class"], 0) + 1
     npos = sum(1 for c in cases if c["fam"] == "pos")
-    if npos < 165:
+    if npos < 175:
         vlib.tool_error("vacuity: only %d position cases" % npos)
+    ndead = sum(1 for c in cases if c["fam"] == "dead")
+    ndeadself = sum(1 for c in cases if c["fam"] == "deadself")
+    if ndead < (250 if tier == "quick" else 2200) or ndeadself < (60 if tier == "quick" else 800):
+        vlib.tool_error("vacuity: only %d dead-code and %d dead self-reference cases" % (ndead, ndeadself))
+    if any(c["class"] != "confluent" for c in cases if c["fam"] in ("dead", "deadself")):
+        vlib.tool_error("a dead-code case is not confluent")
     nself = sum(1 for c in cases if c["fam"] == "self")
     if nself < 40:
         vlib.tool_error("vacuity: only %d self-reference cases" % nself)
     ntype = sum(1 for c in cases if c["fam"] == "type")
     if ntype < 45 or by_class.get("illtyped", 0) < 25 or by_class.get("unspecified", 0) < 3:
         vlib.tool_error("vacuity: %d type-order cases, classes %s" % (ntype, by_class))
-    min_cases = 1300 if tier == "quick" else 11100
+    min_cases = 1600 if tier == "quick" else 14200
     if len(cases) < min_cases or r.depth < 6:
         vlib.tool_error("vacuity: %d programs, depth %d" % (len(cases), r.depth))
     if by_class.get("cyclic", 0) < 50 or by_class.get("confluent", 0) < 300 or by_class.get("nonconfluent", 0) < 1:
@@ -210,7 +221,8 @@ def run(ctx):
     ev.set(states=r.distinct, transitions=r.generated, tlc_wall_s=round(r.wall_s, 1), programs=len(cases),
            classes=by_class, non_confluent=by_class.get("nonconfluent", 0),
            spec_invariants=["NoUninitialisedAccess", "SpecNeverStuck", "InitialisedOnlyOnce", "InOutcomes", "Confluence",
-                            "CyclicNeverCompletes", "BlockedOnlyIfCyclic", "CompleteEndsDone", "PositionCasesConfluent", "SelfCasesCyclic", "TypeLabels"])
+                            "CyclicNeverCompletes", "BlockedOnlyIfCyclic", "CompleteEndsDone", "PositionCasesConfluent", "SelfCasesCyclic",
+                            "DeadCasesConfluent", "TypeLabels"])
 
     # 2. conformance: all permutations / splits through the real compiler and minilua; TLC judges
     tf, recs = record(wd, "main", cases, params)
@@ -236,6 +248,8 @@ def run(ctx):
     pos_ok, pos_clean = {}, {}                 # the same for the syntactic positions
     type_good_clean = set()                    # type shapes whose well-typed use is accepted and behaves in every rendering
     ill_rejected = 0                           # planted ill-typed programs rejected in every rendering
+    dead_ok, dead_clean, deadpos_clean = {}, {}, {}   # dead contexts / positions accepted (and behaving) in every rendering
+    deadself_rejected = deadself_accepted = 0  # dead self-references: rejected / accepted in every rendering
     conservative = 0
     cyc_rejected = 0
     all_syntax = 0
@@ -258,6 +272,15 @@ def run(ctx):
         if j["class"] == "confluent" and rec["fam"] == "type":
             if j["accepted"] == j["variants"] and (i + 1) not in rejected_recs:
                 type_good_clean.add(rec["id"]["shape"])
+        elif rec["fam"] == "deadself":
+            deadself_rejected += j["accepted"] == 0
+            deadself_accepted += j["accepted"] == j["variants"]
+        elif rec["fam"] == "dead":
+            if j["accepted"] == j["variants"]:
+                dead_ok[rec["id"]["ctx"]] = dead_ok.get(rec["id"]["ctx"], 0) + 1
+                if (i + 1) not in rejected_recs:
+                    dead_clean[rec["id"]["ctx"]] = dead_clean.get(rec["id"]["ctx"], 0) + 1
+                    deadpos_clean[rec["id"]["pos"]] = deadpos_clean.get(rec["id"]["pos"], 0) + 1
         elif j["class"] == "confluent":
             if j["accepted"] == 0:
                 conservative += 1
@@ -282,8 +305,15 @@ def run(ctx):
     missing = [q for q in all_pos if pos_ok.get(q, 0) == 0]
     if missing:
         vlib.tool_error("vacuity: positions never accepted by the compiler (printer / typing of the case?): %s" % missing)
-    if len(all_pos) < 50:
+    if len(all_pos) < 53:
         vlib.tool_error("vacuity: only %d positions" % len(all_pos))
+    all_ctx = sorted({c["id"]["ctx"] for c in cases if c["fam"] == "dead"})
+    missing = [q for q in all_ctx if dead_ok.get(q, 0) == 0]
+    if missing or len(all_ctx) < 14:
+        vlib.tool_error("vacuity: %d dead contexts; never accepted by the compiler (printer / typing of the case?): %s" % (len(all_ctx), missing))
+    missing = [q for q in all_pos if q not in {c["id"]["pos"] for c in cases if c["fam"] == "dead"}]
+    if missing:
+        vlib.tool_error("vacuity: positions without a dead-code case: %s" % missing)
     all_tshapes = sorted({c["id"]["shape"] for c in cases if c["fam"] == "type"})
     missing = [q for q in all_tshapes if q not in type_good_clean]
     if missing:
@@ -320,8 +350,12 @@ def run(ctx):
            kinds_behaving_as_specified=kinds_clean, position_cases=npos, positions=len(all_pos),
            positions_behaving_as_specified=len(pos_clean), type_order_cases=ntype, self_reference_cases=nself, type_shapes=len(all_tshapes),
            illtyped_rejected_in_every_order=ill_rejected, negative_controls_rejected=neg_total,
+           dead_code_cases=ndead, dead_contexts=len(all_ctx), dead_contexts_behaving_as_specified=len(dead_clean),
+           dead_positions_behaving_as_specified=len(deadpos_clean), dead_self_reference_cases=ndeadself,
+           dead_self_reference_rejected_in_every_order=deadself_rejected, dead_self_reference_accepted_in_every_order=deadself_accepted,
            reject_records=len(rejects), known_findings_hit=verdicts.known_hits, validate_wall_s=round(v.wall_s, 1),
-           rule="type-order family: 17 shapes of mutually mentioning type declarations / signature-only uses x (good + planted ill-typed uses), all; position family: 47 syntactic positions x users (start / init / iife / expr), all; shape family: programs of SyltInit's universe (sizes 1-3 complete; size 4 complete in thorough, a seeded 1/12 sample plus "
+           rule="dead-code families (SyltDeadCode): 14 dead contexts (after ret / <!>, in never-taken branches, arms, loops, closures) x 53 positions x users "
+                "(start / init / iife), and self-references in dead code (quick: a diagonal 1/8 resp. 1/12 sample defined in TLA+, every context and every position occurs); type-order family: 17 shapes of mutually mentioning type declarations / signature-only uses x (good + planted ill-typed uses), all; position family: 53 syntactic positions x users (start / init / iife / expr), all; shape family: programs of SyltInit's universe (sizes 1-3 complete; size 4 complete in thorough, a seeded 1/12 sample plus "
                 "landmarks in quick); per program every permutation of its NS top-level statements when NS! <= 120, else 120 "
                 "seeded distinct ones incl. canonical and reversed; plus two-file groups (mask, import style) x permutations; "
                 "non-trivial = at least 6 renderings",
